@@ -56,6 +56,9 @@ def stream(family, tier):
             decs = list(G.decorate(cl, heads, k=k))
             yield decs[0] if k % 2 == 0 else decs[1 + k % 3]
             k += 1
+    elif family == "FLEX":
+        for p in G.flex_programs():
+            yield p
     elif family == "FT":
         for cl in G.ft_programs():
             qs = [G.A("s"), G.A("t")]
